@@ -248,6 +248,11 @@ type FactEngine struct {
 	sumCache map[string]DNF
 	sumBusy  map[string]bool
 	Depth    int // summary inlining bound
+
+	callSites map[*ssa.Function][]*ssa.Call
+	otherUse  map[*ssa.Function]bool
+	entryBusy map[*ssa.Function]bool
+	analysing map[*ssa.Function]bool
 }
 
 type fnFacts struct {
@@ -1289,9 +1294,143 @@ func (fe *FactEngine) analysisFor(fn *ssa.Function) *fnFacts {
 			return ff
 		}
 	}
-	ff := fe.run(fn, top(), 0)
+	entry := fe.entryFor(fn)
+	if fe.analysing == nil {
+		fe.analysing = map[*ssa.Function]bool{}
+	}
+	fe.analysing[fn] = true
+	ff := fe.run(fn, entry, 0)
+	delete(fe.analysing, fn)
 	fe.fn[fn] = ff
 	return ff
+}
+
+// entryFor: the facts that hold on entry to fn. For an unexported module function all of whose uses
+// are static synchronous calls from module code, that is the join (union of alternatives) of the
+// callers' states at those call sites, with fn's parameters bound to the arguments - so a guard
+// established by the caller is visible inside a helper it was extracted into. Everything else
+// (exported API, functions used as values, go/defer targets, recursion) starts from no facts.
+func (fe *FactEngine) entryFor(fn *ssa.Function) DNF {
+	if fe.entryBusy == nil {
+		fe.entryBusy = map[*ssa.Function]bool{}
+		fe.computeUses()
+	}
+	if fe.entryBusy[fn] || fn.Parent() != nil || fn.Synthetic != "" || fe.otherUse[fn] || len(fe.callSites[fn]) == 0 {
+		return top()
+	}
+	if obj, ok := fn.Object().(*types.Func); !ok || obj.Exported() || fn.Name() == "init" || fn.Name() == "main" {
+		return top()
+	}
+	fe.entryBusy[fn] = true
+	defer delete(fe.entryBusy, fn)
+	var out DNF
+	for _, site := range fe.callSites[fn] {
+		caller := site.Parent()
+		if fe.entryBusy[caller] || fe.analysing[caller] {
+			return top()
+		}
+		st := fe.StateBefore(site)
+		if st == nil {
+			continue // call site unreachable
+		}
+		c := site.Common()
+		for _, alt := range st {
+			// translate the caller's facts into the callee's vocabulary: argument terms become the
+			// parameters they are bound to; facts that still mention caller-local entities are dropped
+			sub := map[string]*Term{}
+			for i, prm := range fn.Params {
+				if i >= len(c.Args) {
+					break
+				}
+				pt := fe.ts.Of(prm)
+				if pt.Op != OpParam || pt.Fn != fn {
+					continue // statically bound (region folding)
+				}
+				av := fe.resolve(alt, c.Args[i])
+				if av.Op == OpConst {
+					continue
+				}
+				if _, dup := sub[av.String()]; !dup {
+					sub[av.String()] = pt
+				}
+			}
+			na := newAlt()
+			for k, t := range alt.terms {
+				if k[0] != 'b' && k[0] != 'n' {
+					continue
+				}
+				nt := t.Subst(sub)
+				ok := true
+				nt.Walk(func(x *Term) bool {
+					switch x.Op {
+					case OpParam, OpLocal, OpPhi, OpOpaque, OpRecv, OpClosure:
+						if x.Fn != fn {
+							ok = false
+						}
+						if x.Op == OpClosure {
+							ok = false
+						}
+					}
+					return ok
+				})
+				if !ok {
+					continue
+				}
+				nk := k[:2] + nt.String()
+				na.facts[nk] = alt.facts[k]
+				na.terms[nk] = nt
+			}
+			out = append(out, na)
+		}
+	}
+	if len(out) == 0 {
+		return top()
+	}
+	out, _ = normalizeDNF(out, false)
+	return out
+}
+
+// computeUses indexes static call sites and other uses of module functions.
+func (fe *FactEngine) computeUses() {
+	fe.callSites = map[*ssa.Function][]*ssa.Call{}
+	fe.otherUse = map[*ssa.Function]bool{}
+	fe.analysing = map[*ssa.Function]bool{}
+	for _, f := range fe.p.ModFuncs {
+		for _, b := range f.Blocks {
+			for _, ins := range b.Instrs {
+				c := callInstrCommon(ins)
+				var callee *ssa.Function
+				if c != nil {
+					callee = c.StaticCallee()
+					if callee != nil {
+						if call, ok := ins.(*ssa.Call); ok {
+							fe.callSites[callee] = append(fe.callSites[callee], call)
+						} else {
+							fe.otherUse[callee] = true
+						}
+					}
+				}
+				for _, op := range ins.Operands(nil) {
+					if g, ok := (*op).(*ssa.Function); ok {
+						if c != nil && c.Value == ssa.Value(g) {
+							continue
+						}
+						fe.otherUse[g] = true
+					}
+				}
+			}
+		}
+	}
+	// methods reachable through interfaces may be invoked dynamically
+	for _, f := range fe.p.ModFuncs {
+		if f.Signature.Recv() != nil {
+			for _, e := range fe.cg.In[f] {
+				if c := callInstrCommon(e.Site); c != nil && c.IsInvoke() {
+					fe.otherUse[f] = true
+				}
+			}
+		}
+	}
 }
 
 // StateBefore returns the DNF holding immediately before ins executes (nil if unreachable).
